@@ -105,6 +105,11 @@ for a in r_anoms:
         seen_sites.add((a["site"], len(a["argv"] or [])))
         v.report({"branch": "input." + a["site"], "kind": "malformed-reply", "detail": ""}, a,
                  what="%s -> the reply is not exactly one well-formed RESP value: %s" % (" ".join(repr(x) for x in a["argv"]), a["detail"][:300]))
+# ---- cluster mode, one client per node in lock step: every connection gets the reply to ITS command (started here, collected
+# at the end; the same scenario serves C14)
+import clusterscen
+_cl_ex = concurrent.futures.ThreadPoolExecutor(max_workers=1)
+_cl_job = _cl_ex.submit(clusterscen.pinned_lockstep, 30 if tier == "quick" else 200)
 # ---- concurrent connections (lib/wireconc.py): each connection's reply stream is its own, also while the server is blocked
 # in the middle of writing a multi-megabyte reply to a reader that does not read
 import wireconc
@@ -124,6 +129,11 @@ si_probs, si_stats = wireconc.subscriber_idle_reply((2.6,) if tier == "quick" el
 wc_stats.append(si_stats)
 for pr in si_probs:
     v.report({"branch": "subscriber-idle", "kind": pr["kind"], "detail": ""}, pr, what=pr["detail"])
+lprobs, lstats = _cl_job.result()
+cov["cluster_one_client_per_node_lockstep"] = lstats
+for pr in lprobs or []:
+    v.report({"branch": "cluster.own-reply", "kind": pr["kind"], "detail": ""}, pr,
+             what="cluster mode, one client per node in lock step: %s" % pr["detail"])
 cov["concurrent_connections"] = wc_stats
 cov["adversarial_inputs"] = r_summary["executed"]
 cov["traces_validated_against_impl"] += 0
